@@ -79,6 +79,16 @@ def gen_teardown(rnd):
                 slow_closeok=rnd.choice([0, 0, 0.3, 0.6]))
 
 
+def gen_hbrace(rnd):
+    """close() at the very instant a heartbeat timer fires."""
+    threads = [[(0, ('sync_timer',)), (0, ('conn_close',))]]
+    if rnd.random() < 0.4:
+        threads.append([(0, ('sync_timer',)), (0, ('conn_close',))])
+    if rnd.random() < 0.4:
+        threads.append([(1, ('declare', b'h')), (1, ('sync_timer',)), (1, ('publish', b'Ax', False))])
+    return dict(nchan=1, threads=threads, heartbeat=rnd.choice([2, 4, 60]))
+
+
 class Driver(concdrv.ConcMixin):
     PID = 'C08'
     MODEL_TARGETS = ['Model/Life.vo', 'Model/ConcObs.vo']
@@ -86,7 +96,9 @@ class Driver(concdrv.ConcMixin):
     SPEC = dict(header='From AV Require Import Lib.Base Model.ChanAlloc Model.Life.',
                 tin='(bool * list lop)', tobs='(list lobs)', eqb='life_obs_eqb',
                 model='life_model', prop='life_prop_ok', nontriv='life_nontrivial')
-    CONC = [('teardown', gen_teardown, 'conc_teardown_ok', 40, 500)]
+    CONC = [('teardown', gen_teardown, 'conc_teardown_ok', 40, 500),
+            ('hbrace', gen_hbrace, 'conc_teardown_ok', 30, 500)]
+    LINE_P = [0.0, 0.05, 0.15, 0.3]
     RULE = ('API-conforming histories of 2..12 operations (see module docstring), heartbeat '
             '0 or 60 s, exhaustive over all open/close behaviours for the shapes '
             'open-x;close-y;open-ok;channel;declare, random otherwise.  Non-trivial = at least '
